@@ -25,6 +25,11 @@ type Request struct {
 	Group string `json:"group"`
 	Err   int    `json:"err"`
 
+	// tag: What = "group" (parseGroupString on S), "optional" / "ignore-unexported" (the boolean struct tags, value S),
+	// "opts" (provideOptions.Validate for Name and Group)
+	What string `json:"what"`
+	S    string `json:"s"`
+
 	// prog
 	Cfg    Cfg              `json:"cfg"`
 	Types  json.RawMessage  `json:"types"` // facts for the model; the executor asks reflect
@@ -148,6 +153,15 @@ type GraphRes struct {
 // LabelRes answers a label request.
 type LabelRes struct {
 	Text string `json:"text"`
+}
+
+// TagRes answers a tag request.
+type TagRes struct {
+	Err     string `json:"err"` // "" | "invalid" | "groupOpt" | "other"
+	Name    string `json:"name"`
+	Flatten bool   `json:"flatten"`
+	Soft    bool   `json:"soft"`
+	Val     bool   `json:"val"`
 }
 
 // ProgRes answers a program request.
